@@ -7,6 +7,7 @@
     The cloud API is the fake that completes every tracked job when polled. *)
 From Coq Require Import List Bool Arith ZArith.
 From RV Require Import Model.ArrCounter Proofs.ArrCounterInv Model.ArrLife Proofs.ArrLifeInv.
+From RV Require Import Model.GlueWaves Proofs.GlueWavesInv.
 From RV Require Import Model.Monitor Proofs.MonitorBase Proofs.MonitorWitness Proofs.MonitorFixed.
 Import ListNotations.
 Open Scope list_scope.
@@ -121,6 +122,37 @@ Proof. exact clear_in_stop_loses. Qed.
 Theorem C10_arrayer_shipped_never_loses : ~ life_loses ClearInStart.
 Proof. exact shipped_never_loses. Qed.
 
+(** ---- Glue: two threads with different lifetimes, multi-wave histories ([Model/GlueWaves.v]) ----
+    Any number of jobs; any order of whole-phase actions (submit, submission thread, Glue finishing a
+    run, monitor iteration / exit), i.e. waves separated by drains with runs still in flight. *)
+Theorem C10_glue_queue_has_submitter : forall js s, greach AlwaysCheck (ginit js) s ->
+  g_queue s <> [] -> g_sub s = true /\ g_flag s = true /\ g_mon s = true.
+Proof. exact queue_has_submitter. Qed.
+
+Theorem C10_glue_waves_progress : forall js s j, greach AlwaysCheck (ginit js) s ->
+  (In j (g_queue s) -> exists s', gstep AlwaysCheck s GSub = Some s' /\ In j (g_running s')) /\
+  (In j (g_running s) -> gmem j (g_finished s) = false -> exists s', gstep AlwaysCheck s (GComplete j) = Some s') /\
+  (In j (g_running s) -> gmem j (g_finished s) = true ->
+     exists s', gstep AlwaysCheck s GPoll = Some s' /\ In j (g_reported s')).
+Proof. exact waves_progress. Qed.
+
+Theorem C10_glue_waves_quiescent : forall js s, greach AlwaysCheck (ginit js) s ->
+  g_todo s = [] -> g_mon s = false -> g_sub s = false -> forall j, In j js -> In j (g_reported s).
+Proof. exact waves_quiescent_reported. Qed.
+
+(** [_start] returning early when is_running is set: after the submission thread has drained and
+    returned while a run is in flight, the next job stays in pending_glue_jobs in every future. *)
+Theorem C10_glue_refuted_early_return : waves_stuck EarlyReturn.
+Proof. exact early_return_stuck. Qed.
+
+Theorem C10_glue_shipped_not_stuck : ~ waves_stuck AlwaysCheck.
+Proof. exact shipped_not_stuck. Qed.
+
+Print Assumptions C10_glue_queue_has_submitter.
+Print Assumptions C10_glue_waves_progress.
+Print Assumptions C10_glue_waves_quiescent.
+Print Assumptions C10_glue_refuted_early_return.
+Print Assumptions C10_glue_shipped_not_stuck.
 Print Assumptions C10_arrayer_armed.
 Print Assumptions C10_arrayer_all_submitted.
 Print Assumptions C10_arrayer_refuted_clear_in_stop.
